@@ -10,7 +10,8 @@ import shutil
 import subprocess
 import sys
 
-SRC = "/tmp/seed_out"
+SRC = os.environ.get("SEED_SRC", "/tmp/seed_out")
+TAG = os.environ.get("SEED_TAG", "")          # e.g. "r2-" for second-round seeds
 DST = "/verif/seeded"
 EXTRA = {  # other checks worth running for a seed besides its own property
     "C01": ["C05", "C14", "C04"], "C05": ["C01", "C14"], "C14": ["C01", "C02"], "C04": ["C01", "C05"], "C13": ["C02", "C10"],
@@ -76,7 +77,7 @@ def main():
                 sh(f"git -C {wt} checkout -- .")
             out["status"] = "detected" if pid in out["detected_by"] else ("detected-by-other" if out["detected_by"] else "MISSED")
         out["ran"] = ran
-        dst = f"{DST}/{pid}-{x}"
+        dst = f"{DST}/{pid}-{TAG}{x}"
         os.makedirs(dst, exist_ok=True)
         shutil.copy(patch, f"{dst}/patch.diff")
         if os.path.exists(f"{d}/demo.py"):
